@@ -220,4 +220,75 @@ class SuperiorsExtenders(Harness):
         return cl
 
 
-HARNESSES = [Chains(), SuperiorsExtenders()]
+class SuperiorAcrossOrigin(Harness):
+    """SUPERIORS when the superior's core runs through the origin: two genes anchoring the superior rule on either side of the
+    origin, and a gene anchoring the inferior rule in the gap between one of them and the origin"""
+    pid, name = "C03", "superior_across_origin"
+    functions = [CP + "find_protoclusters", CP + "remove_redundant_protoclusters", CP + "merge_over_origin"]
+    bound = ("circular record; rule r2 SUPERIORS r1; two disjoint simple genes anchoring r1, one before and one after the origin, "
+             "and a simple gene anchoring r2 between one of them and the origin (either side); symbolic coordinates, cutoffs and "
+             "record length; neighbourhood 0; the two r1 genes are not within the cutoff the long way round and their chain across "
+             "the origin, if any, is shorter than half the record")
+    outside = "extenders here (superiors_extenders); more genes; origin-spanning genes (chains)"
+    task_paths = 150
+
+    def variants(self, tier):
+        return [{"side": "before"}, {"side": "after"}]
+
+    def vars(self, var):
+        d = {"n": "int", "c1": "int", "c2": "int"}
+        for name in ("a1", "a2", "b"):
+            d.update(shape_vars(name, "s"))
+        return d
+
+    def pre(self, var, v):
+        n = v["n"]
+        c = [shape_pre(name, "s", v, n) for name in ("a1", "a2", "b")]
+        c += [v["a2e0"] <= v["a1s0"], v["c1"] >= 1, v["c2"] >= 1, v["c1"] <= 3 * n, v["c2"] <= 3 * n,
+              v["a1s0"] - v["a2e0"] >= v["c1"],                              # not chained the long way round
+              2 * ((n - v["a1s0"]) + v["a2e0"]) < n]                         # the arc through the origin is the short one
+        if var["side"] == "before":
+            c += [v["a1e0"] <= v["bs0"]]                                     # a1 | b | origin | a2
+        else:
+            c += [v["be0"] <= v["a2s0"]]                                     # a1 | origin | b | a2
+        return L.And(c)
+
+    def run(self, var, v):
+        from antismash.common.hmm_rule_parser.structures import ProfileHit
+        rec = mkrecord(v["n"], True)
+        for name in ("a1", "a2", "b"):
+            rec.add_cds_feature(DummyCDS(location=build(name, "s", v), locus_tag=name, translation="A"))
+        r1 = rp.DetectionRule("r1", "cat", v["c1"], 0, rp.SingleCondition(False, "a"))
+        r2 = rp.DetectionRule("r2", "cat", v["c2"], 0, rp.SingleCondition(False, "b"), superiors=["r1"])
+        hits = {"a1": [ProfileHit("a1", "a", 50., 1e-5)], "a2": [ProfileHit("a2", "a", 50., 1e-5)], "b": [ProfileHit("b", "b", 50., 1e-5)]}
+        doms = defaultdict(lambda: defaultdict(set))
+        protos = cp.find_protoclusters(rec, {"r1": {"a1", "a2"}, "r2": {"b"}}, {"r1": r1, "r2": r2}, hits, doms)
+        return [{"product": p.product, "core": canon_loc(p.core_location)} for p in protos]
+
+    def post(self, var, v, out):
+        if is_raised(out):
+            return [("no_raise", False)]
+        n = v["n"]
+        chained = (n - v["a1e0"]) + v["a2s0"] < v["c1"]
+        r1s = [p for p in out if p["product"] == "r1"]
+        r2s = [p for p in out if p["product"] == "r2"]
+        cl = [("superior_rule_chained_iff_within_cutoff_across_the_origin", L.Iff(len(r1s) == 1, chained)),
+              ("at_most_one_inferior", len(r2s) <= 1),
+              # chained: the superior's core is a1 .. origin .. a2 and covers the inferior's gene; otherwise neither r1 core does
+              ("inferior_dropped_iff_superior_covers_its_core_genes", L.Iff(len(r2s) == 0, chained))]
+        if len(r1s) == 1:
+            core = r1s[0]["core"]
+            cl.append(("core_runs_through_the_origin", L.And(len(core) == 2, core[0][0] == v["a1s0"], core[0][1] == n,
+                                                             core[1][0] == 0, core[1][1] == v["a2e0"])))
+        return cl
+
+    def klass(self, var, out):
+        if is_raised(out):
+            return "raised:" + out.etype
+        return "protoclusters:%d" % len(out)
+
+    def expected_classes(self, var):
+        return {"protoclusters:1", "protoclusters:3"}
+
+
+HARNESSES = [Chains(), SuperiorsExtenders(), SuperiorAcrossOrigin()]
